@@ -350,7 +350,7 @@ def r0_negotiation(ctx):
     # the public entry points: Locale::find_locale (bytes -> lossy parse -> find_match over get_all) and find_matchs
     # (a model of icu's parser on the spellings used below: `-` or `_` as separator, any letter case, numeric regions and
     # digit-bearing variants are language identifiers; everything else in the lists below is not)
-    for t in ("es", "es-419", "de-1996", "en-001"):
+    for t in ("es", "es-419", "de-1996", "en-001", "ja", "ko", "zh", "pt", "it", "nl", "sv", "pl", "ru"):
         lids[t] = _lid(t)
         back[lids[t]] = t
 
@@ -374,7 +374,9 @@ def r0_negotiation(ctx):
     bad2 = {}
     for avail in (("en", "fr", "fr-FR"), ("fr-CA", "en-US", "ca-ES"), tuple(UNIVERSE), ("en", "es", "fr", "de", "de-1996")):
         for acc in (["%%bad", "fr-FR", "en"], ["de", "", "fr-CA", "en"], ["not a tag"], [], ["en-GB", "??", "ca-ES-valencia"], ["es-419", "fr"], ["de-1996", "fr"], ["fr_FR", "en"],
-                    ["EN-us", "fr"], ["q=0.8", "*", "en-001", "fr"], ["x", "fr-ca"]):
+                    ["EN-us", "fr"], ["q=0.8", "*", "en-001", "fr"], ["x", "fr-ca"],
+                    # a long header: every entry counts, the only supported language may come last
+                    ["ja", "ko", "zh", "es-419", "pt", "it", "nl", "sv", "pl", "ru", "fr"], ["ja", "ko", "zh", "pt", "it", "nl", "sv", "pl", "ru", "%%", "", "x", "ja", "ko", "zh", "pt", "it", "fr-CA", "en"]):
             ev = AEval(funcs=funcs2, builtins={"get_all": lambda rv, a, avail=avail: L(*[lids[t] for t in avail]), "from_base_locale": lambda rv, a: a[0] if a else rv})
             ev.path_builtins = {"LanguageIdentifier::try_from_bytes": try_from_bytes, "Self::get_all": lambda a, avail=avail: L(*[lids[t] for t in avail]),
                                 "Self::from_base_locale": lambda a: a[0], "L::get_all": lambda a, avail=avail: L(*[lids[t] for t in avail])}
